@@ -186,9 +186,13 @@ def short_conversations():
     ]
 
 
-def random_case(rng, long_conv=False):
+def random_case(rng, long_conv=False, did0=True):
     brty = rng.choice(["106A", "212F"])
     did = rng.choice([None, None, 1, 3, 14, 255, 0] if rng.random() < 0.1 else [None, None, 3, 9])
+    if did == 0 and not did0:
+        # as found (F26) an Initiator with DID 0 and a Target without DID exchange ATN PDUs until the
+        # deadline (13000 rounds): the abstraction of the clock does not cover that count
+        did = None
     nad = rng.choice([None, None, None, 5])
     lri, lrt = rng.randrange(4), rng.randrange(4)
     if rng.random() < 0.7:
@@ -455,7 +459,7 @@ def run(ck):
                         "frames: %d scripts" % (conv.bucket, len(base.wire), kk, alphabet, length, len(cases) - n0))
     nrand = 4000 if ck.thorough else 500
     for i in range(nrand):
-        cases.append(random_case(rng, long_conv=(i % 5 == 0)))
+        cases.append(random_case(rng, long_conv=(i % 5 == 0), did0=variant[1] == "1"))
     for i in range(1500 if ck.thorough else 250):
         cases.append(isolated_case(rng))
     # witnesses of the known defects (regression corpus)
